@@ -225,7 +225,16 @@ def canon(tree):
     for e in out:
         if e[0] == "box":
             key = (lambda ln: -ln[2][2]) if e[1] == "V" else (lambda ln: -ln[2][3])
-            lines = sorted(e[4], key=lambda ln: (key(ln), [x for x in ln[1] if x > 0][:1]))
+            # only runs of consecutive lines with the same sort key are put in content order; lines with different
+            # keys keep their places (a wrong order of those is a different tree)
+            lines = []
+            run = []
+            for ln in e[4]:
+                if run and key(run[-1]) != key(ln):
+                    lines += sorted(run, key=lambda x: [g for g in x[1] if g > 0][:1])
+                    run = []
+                run.append(ln)
+            lines += sorted(run, key=lambda x: [g for g in x[1] if g > 0][:1])
             res.append(e[:4] + (tuple(lines),))
         else:
             res.append(e)
@@ -291,6 +300,11 @@ def replay_chunk(chunk):
                         res["viol"].append(("dev:GridOrderTies", "lines with the same top edge inside a text box are ordered by the "
                                             "50 pt grid of utils.Plane, hence differently at another scale",
                                             dict(short(rec), scale=str(scale), rev=rev, observed=repr(got)[:1200])))
+                    else:
+                        # the property's own predicates are evaluated all the same
+                        res["pred_evals"] += 1
+                        for key, msg in O.c08_failures(cont, list(items), la):
+                            res["viol"].append((key, msg, dict(short(rec), scale=str(scale), rev=rev, observed=repr(got)[:1200])))
                     continue
                 check_pred = (not ok) or (res["n"] % 16 == 1 and si == 0 and not rev)
                 fails = []
